@@ -89,6 +89,8 @@ def find_duplicates(v, tol=0.0):
     array([False,  True,  True,  True, False,  True,  True], dtype=bool)
     """
     v = np.atleast_1d(v)
+    if v.size < 2:
+        return np.zeros(v.size, bool)
     i = np.argsort(v)
     dif = np.diff(v[i])
     dups = np.zeros(v.size, bool)
